@@ -19,7 +19,7 @@ CHECKS = {
         "text": "Must-pass-through + value rules on the IR of the four free functions (N0 and -O3): on every path with a non-null state a wipe primitive is applied to the "
                 "parameter itself and the union of wiped byte ranges equals [0, sizeof(public type)) taken from DWARF; nothing writes the state after the wipe. tinyjambu_clean: "
                 "host configuration forwards (buf, size) unchanged to explicit_bzero on every path; the volatile fallback (built by shadowing config.h) is one loop whose SCEV "
-                "trip count is `size` with one unconditional volatile i8 0 store at {buf,+,1}; at -O3 the call / the volatile stores are still there.",
+                "trip count is `size` with one unconditional volatile i8 0 store at {buf,+,1}; at -O3 the call / the volatile stores are still there. Calls of tinyjambu_clean use the function type it is defined with (a size parameter of another width is read from a register half nobody wrote).",
         "note": "Trusted: explicit_bzero's contract; C's rule that volatile accesses are not added or removed. memset_s / SecureZeroMemory variants cannot be built here and are not covered. "
                 "gcc only via a relocation cross-check (thorough).",
         "technique": "CFG must-pass-through and argument-provenance rules over LLVM IR + SCEV trip count, in two configurations and two optimisation levels",
@@ -38,7 +38,7 @@ CHECKS = {
                 "shadowing config.h): the OS call's return value and errno are partitioned into {<0,>=0 / short / full} x {EINTR, EAGAIN, other}; from the call the CFG is followed per class. "
                 "Transient classes lead back to the same call with loop-invariant arguments and no effect; permanent classes return 0 after memset(out,0,32) without a back edge; "
                 "success returns 1 with the buffer untouched; every path from a successful open() passes close(fd). Any finite fault sequence is a word over these classes, so the per-class "
-                "obligations cover all sequences. C17's status rules are re-run on every variant for the 'not seeded but usable' clause.",
+                "obligations cover all sequences. C17's status rules are re-run on every variant for the 'not seeded but usable' clause. The errno classes are EINTR, EAGAIN, representative permanent values and every constant the code itself compares errno with (each must be permanent unless it is EINTR / EAGAIN).",
         "note": "Assumes the kernel contract (no short getrandom for 32 bytes). Windows/Arduino/ESP/STM32 TRNG files need vendor headers absent here: not covered.",
         "technique": "finite-class abstract execution (D-FIN) over the CFG of each configuration variant",
     },
@@ -77,7 +77,7 @@ CHECKS = {
     "C04": {
         "text": "check_tag's wipe loop: SCEV trip count = plaintext_len, one unconditional byte store at {plaintext,+,1} of p[i] & mask, with mask = 0xFF for accumulator 0 and 0x00 for each of the 255 "
                 "other accumulator values (exhaustive), the same accumulator the verdict is folded from. All six AEAD/SIV decrypt call sites pass the entry value of m and clen - 8 (affine equality, "
-                "through the *mlen reload), and for every clen class >= 8 every path leaves through that call.",
+                "through the *mlen reload), and for every clen class >= 8 every path leaves through that call. A mask with clear upper bits or a truncation applied to a value computed from plaintext_len, or a length that reaches check_tag through a narrower integer, is refuted (the wipe would cover length mod 2^k bytes).",
         "note": "That an accepted buffer holds exactly the plaintext is C01/C08. Distinct pointer parameters assumed non-overlapping except c == m.",
         "technique": "SCEV loop-coverage + bit-provenance of the stored value + affine argument equality + must-pass-through",
     },
@@ -124,7 +124,7 @@ CHECKS = {
                 " R-C08-SETUPFN (setup is a function of the nonce bytes on every path class and every nonce bit enters the state), R-C08-NOSTATE (no writable global state reachable), R-C08-SMALL "
                 "(every length 0..100 as straight paths: i/o and memory discipline, refusal of inputs shorter than a tag; relationally for every length 0..80: decrypt's two passes are encrypt's two passes on the same inputs, plaintext recovered bit for bit, regenerated tag = stored tag). "
                 "R-C08-ABSORB: the shared absorb function (associated data, and the plaintext of the authentication pass) is injective in the bytes of every segment - a loss of input bits made alike "
-                "in both directions keeps the round trip but lets modified bodies or associated data through. R-C08-KEY: the key words are an injective function of the key bytes. The length out-parameter is write-only until stored (every load from it is dominated by a store).",
+                "in both directions keeps the round trip but lets modified bodies or associated data through. R-C08-KEY: the key words are an injective function of the key bytes. The length out-parameter is write-only until stored (every load from it is dominated by a store). R-C08-NONCE also carries a non-relational premise: the set-up of the authentication pass is given the caller's nonce.",
         "note": "Values not computed; tag sensitivity is a cipher property; check_tag itself is decided under C03/C04. Consistent deviations from the construction are C09's.",
         "technique": "relational symbolic path summaries (encrypt vs decrypt) in a GF(2) term domain; finite-class execution for the length guard",
     },
@@ -144,7 +144,7 @@ CHECKS = {
                 "caller byte buffers claim alignment 1 (N0 and -O3) and are one byte wide (N0); nothing is written through a pointer-to-const parameter. (SHIFT) shift amounts below the width "
                 "(constants exactly, variables by known-bits range). (EXACT) AEAD/SIV write exactly mlen+8 / clen-8 bytes per path class, refusals write nothing; wipes and hash_update never touch "
                 "bytes outside the declared range for every length/alignment class (D-COV, one-sided). (ASM) stores/loads of the 27 assembly programs stay in the state words / frame. "
-                "Plus compile-fail witnesses. (ALIGN) no access through a pointer parameter claims more than 8-byte alignment. A wide access to a caller byte buffer is accepted when dominated by a test of that buffer's address, or when D-COV computes its address to be a multiple of the width in every (alignment, length) class; where the affine analysis has no trip count (a loop that tests the cursor's alignment) the bounds clause falls back to D-COV's per-class coverage. R-C06-DEFINED: the buffer the PRNG initialisers and reseed hand to the entropy source is defined before the request (a short delivery leaves no uninitialised byte in what is hashed).",
+                "Plus compile-fail witnesses. (ALIGN) no access through a pointer parameter claims more than 8-byte alignment. A wide access to a caller byte buffer is accepted when dominated by a test of that buffer's address, or when D-COV computes its address to be a multiple of the width in every (alignment, length) class; where the affine analysis has no trip count (a loop that tests the cursor's alignment) the bounds clause falls back to D-COV's per-class coverage. R-C06-DEFINED: the buffer the PRNG initialisers and reseed hand to the entropy source is defined before the request (a short delivery leaves no uninitialised byte in what is hashed). R-C06-PROTO: every direct call in the linked library has the function type its callee is defined with.",
         "note": "Modular: inside a function pointer parameters have the documented sizes (contract table = trusted transcription of TinyJAMBU.h); undecided side conditions (no-wrap without a "
                 "parameter-only witness, variable shifts, nsw on opaque operands, exact ranges of functions whose shape the mode summaries do not recognise) are listed in the evidence, not reported; "
                 "an access that can be neither proven nor refuted makes the check exit 2. -O3 objects only for alignment claims; gcc not covered.",
@@ -189,7 +189,7 @@ CHECKS = {
                 "lock-step cursor/length; each last-block length 1..31 copies exactly that many bytes of T; T and U wiped. The chain trip count comes from ScalarEvolution (either loop direction). "
                 "Premise R-C14-PRF re-runs C12/C10/C11. Besides the per-class summaries, the shape-independent rule R-C14-SMALL evaluates the function for count in {0,1,2,3,5} x every outlen 0..100 "
                 "(200 and more counts in the thorough tier) as straight paths (count and length concrete, data symbolic, HMAC uninterpreted) and compares the PRF transcript of every block and the "
-                "bytes written with RFC 8018: a refuter only (nothing beyond the bound is covered), so an unrecognised loop shape with a defect that shows for small block numbers is still reported.",
+                "bytes written with RFC 8018: a refuter only (nothing beyond the bound is covered), so an unrecognised loop shape with a defect that shows for small block numbers is still reported. A password hashed once up front is recognised: the digest may key the PRFs only on paths where the password is longer than 64 bytes and while it is intact in its buffer.",
         "note": "Derived key values are not computed; block numbers beyond 2^32 are outside RFC 8018; HMAC is C12.",
         "technique": "finite-class symbolic path summaries with uninterpreted HMAC events; generic iterations of the block and chain loops",
     },
